@@ -383,6 +383,60 @@ def _reform_worker(arg):
     return st, bad, 0
 
 
+# ------------------------------------------------------------------------------------------------ family 4 (derived objects)
+
+def derived_ids():
+    """objects DERIVED by the library from objects that came from bytes (and therefore carry an id cached from those
+    bytes): the signed form of an unsigned transaction, the signable equivalent of a signed one, a block rebuilt around a
+    decoded header / transaction list.  Each derived value's id must be the double SHA-256 of its own canonical encoding"""
+    from skepticoin.datatypes import Block, BlockHeader, Input, Transaction
+    from skepticoin.signing import SignableEquivalent
+    from skepticoin.wallet import Wallet, sign_transaction
+    ledger.setup()
+    uni = ledger.tx_universe('easy')
+    H = uni.get(('f', 's'))
+    bad = []
+    n = 0
+
+    def chk(what, obj, kind):
+        nonlocal n
+        n += 1
+        try:
+            got, exp = id_of(kind, obj)
+            again = type(obj).deserialize(obj.serialize())
+            got2, _ = id_of(kind, again)
+        except Exception as e:
+            bad.append(('derived-id-' + kind, "%s: raises %r" % (what, e)))
+            return
+        if got != exp or got2 != exp:
+            bad.append(('derived-id-' + kind, "%s: id %s, double SHA-256 of its canonical encoding %s" % (what, got.hex()[:16], exp.hex()[:16])))
+    wal = Wallet({K[0].pub: K[0].priv, K[1].pub: K[1].priv}, [], {})
+    from skepticoin.datatypes import OutputReference, Output
+    from skepticoin.signing import SECP256k1PublicKey
+    utxo = {OutputReference(r[0], r[1]): Output(v, SECP256k1PublicKey(pk)) for r, (v, pk) in H.utxo.items()}
+    for lab in ('a', 'c', 'i'):
+        r = ledger.tx_payload(H, lab)
+        if r is None:
+            continue
+        signed = r[0][0]
+        unsigned = Transaction([Input(i.output_reference, SignableEquivalent()) for i in signed.inputs], list(signed.outputs))
+        for src_name, src in (('built in memory', unsigned), ('decoded from bytes', Transaction.deserialize(unsigned.serialize()))):
+            try:
+                s2 = sign_transaction(wal, utxo, src)
+            except Exception as e:
+                bad.append(('derived-id-Transaction', "sign_transaction on an unsigned transaction %s raises %r" % (src_name, e)))
+                continue
+            chk("transaction '%s' signed by the wallet from an unsigned form %s" % (lab, src_name), s2, 'Transaction')
+        dec = Transaction.deserialize(signed.serialize())
+        chk("signable equivalent of transaction '%s' decoded from bytes" % lab, dec.signable_equivalent(), 'Transaction')
+    for pth in (('f', 's', 'a'), ('f', 's', 'd')):
+        b = Block.deserialize(uni.get(pth).block.serialize())
+        chk("block rebuilt from a decoded block's header and transactions", Block(BlockHeader(b.header.summary, b.header.pow_evidence),
+                                                                                  list(b.transactions)), 'Block')
+        chk("block with one transaction fewer around the decoded header", Block(b.header, list(b.transactions[:1])), 'Block')
+    return n, bad
+
+
 # ------------------------------------------------------------------------------------------------ family 3 (store)
 
 def store_ids(ctx):
@@ -451,6 +505,10 @@ def run(ctx):
     dec += dec2e
     ctx.cov['reformed_field_mutants'] = n2e
     n3 = store_ids(ctx)
+    n4, bad4 = derived_ids()
+    n3 += n4
+    for key, what in bad4:
+        ctx.violation(key, what, {'fam': '4'})
     # ---- ids and encodings of values built in memory while another thread encodes / hashes
     thr = thrscen.run(ctx, 'C07', 1 if ctx.quick else 2)
     ctx.cov['thread_schedules'] = thr
@@ -471,6 +529,8 @@ def run(ctx):
 def replay(data, ctx):
     if 'thread_scenario' in data:
         return thrscen.replay(data)
+    if data.get('fam') == '4':
+        return derived_ids()[1]
     out = []
     if data['fam'] == '2a':
         from skepticoin.serialization import stream_deserialize_vlq, stream_serialize_vlq
